@@ -14,16 +14,17 @@ import (
 )
 
 func TestVfC17UpstreamAuth(t *testing.T) {
-	st := vfkit.Stats("TestVfC17UpstreamAuth", "upstream kinds tls / tls+pipeline / https / h3 / quic, URL host as IP or as a name with dial_addr, server certificate situation {valid, wrong name, unknown CA, expired, not yet valid, self-signed} x options {ca configured or not, insecure_skip_verify}; oracle: the client is answered from that upstream iff verification is disabled or the certificate chains to the configured CA and matches the URL host - otherwise SERVFAIL and the fake server receives no DNS query; non-trivial = any certificate other than the valid one, or verification disabled")
+	st := vfkit.Stats("TestVfC17UpstreamAuth", "upstream kinds tls / tls+pipeline / https / h3 / quic, URL host as IP or as a name with dial_addr, server certificate situation {valid, wrong name, unknown CA, expired, not yet valid, self-signed, valid from a CA in the system root store of the process (SSL_CERT_FILE) that is not the configured CA} x options {ca configured or not, insecure_skip_verify}; oracle: the client is answered from that upstream iff verification is disabled or the certificate chains to the configured CA (to the system roots when none is configured) and matches the URL host - otherwise SERVFAIL and the fake server receives no DNS query; non-trivial = any certificate other than the valid one, or verification disabled")
 	defer vfkit.Flush()
 	ca := NewCA("vf c17 ca")
 	otherCA := NewCA("vf c17 other ca")
+	sysCA := NewCA("vf c17 system root") // the system root store of the proxy process (SSL_CERT_FILE) holds exactly this one
 	rapid.Check(t, func(t *rapid.T) {
 		block := NextIPBlock()
 		pip, uip := block+"1", block+"2"
 		kind := rapid.SampledFrom([]string{"tls", "tls+pipeline", "https", "h3", "quic"}).Draw(t, "kind")
 		byName := rapid.Bool().Draw(t, "hostIsName")
-		situation := rapid.SampledFrom([]string{"valid", "valid", "wrong-name", "unknown-ca", "expired", "not-yet-valid", "self-signed"}).Draw(t, "cert")
+		situation := rapid.SampledFrom([]string{"valid", "valid", "wrong-name", "unknown-ca", "expired", "not-yet-valid", "self-signed", "system-ca", "system-ca"}).Draw(t, "cert")
 		caConfigured := rapid.IntRange(0, 3).Draw(t, "caConfigured") > 0
 		insecure := rapid.IntRange(0, 3).Draw(t, "insecure") == 0
 		host := uip
@@ -38,6 +39,8 @@ func TestVfC17UpstreamAuth(t *testing.T) {
 			opts = LeafOpts{DNSNames: []string{"other.c17.test"}, IPs: []string{block + "9"}}
 		case "unknown-ca":
 			issuer = otherCA
+		case "system-ca":
+			issuer = sysCA // valid, and trusted by the system store - but not the configured CA
 		case "expired":
 			opts.NotBefore, opts.NotAfter = time.Now().Add(-48*time.Hour), time.Now().Add(-time.Hour)
 		case "not-yet-valid":
@@ -65,7 +68,7 @@ func TestVfC17UpstreamAuth(t *testing.T) {
 			uc.Tls.CA = "$DIR/ca.pem"
 		}
 		cfg := &Config{Servers: StdServers(pip, []string{"udp"}, ""), Upstreams: []UpstreamCfg{uc}, Rules: []Rule{{Forward: "up"}}}
-		p, err := StartProxy(cfg.YAML(), map[string]string{"ca.pem": string(ca.CertPEM)}, ProxyOpts{})
+		p, err := StartProxy(cfg.YAML(), map[string]string{"ca.pem": string(ca.CertPEM), "sys.pem": string(sysCA.CertPEM)}, ProxyOpts{Env: []string{"SSL_CERT_FILE=$DIR/sys.pem", "SSL_CERT_DIR=$DIR/no-such-dir"}})
 		if err != nil {
 			t.Fatalf("%v", err)
 		}
@@ -84,7 +87,8 @@ func TestVfC17UpstreamAuth(t *testing.T) {
 			t.Fatalf("%d responses", len(res.Resps))
 		}
 		r := res.Resps[0].Msg
-		shouldTrust := insecure || (situation == "valid" && caConfigured)
+		// the configured CA replaces the system roots; without one the system roots decide
+		shouldTrust := insecure || (situation == "valid" && caConfigured) || (situation == "system-ca" && !caConfigured)
 		desc := fmt.Sprintf("upstream %s, certificate %s, ca configured %v, insecure_skip_verify %v", addr, situation, caConfigured, insecure)
 		dnsQueries := 0
 		for _, q := range up.Queries() {
@@ -111,17 +115,18 @@ func TestVfC17UpstreamAuth(t *testing.T) {
 }
 
 func TestVfC17ClientCert(t *testing.T) {
-	st := vfkit.Stats("TestVfC17ClientCert", "listener kinds tls / https / quic with verify_client_cert on or off and a configured CA; clients presenting {no certificate, certificate from another CA, expired certificate, self-signed, valid}; oracle: with verification on only the valid client ever receives a DNS response, with verification off everybody does; non-trivial = verification on with a client that is not the valid one")
+	st := vfkit.Stats("TestVfC17ClientCert", "listener kinds tls / https / quic with verify_client_cert on or off and a configured CA; clients presenting {no certificate, certificate from another CA, certificate from a CA of the system root store of the process, expired certificate, self-signed, valid}; oracle: with verification on only the valid client ever receives a DNS response, with verification off everybody does; non-trivial = verification on with a client that is not the valid one")
 	defer vfkit.Flush()
 	ca := NewCA("vf c17 client ca")
 	otherCA := NewCA("vf c17 other client ca")
+	sysCA := NewCA("vf c17 system root for clients")
 	server := ca.Issue(LeafOpts{DNSNames: []string{"proxy.c17.test"}})
 	rapid.Check(t, func(t *rapid.T) {
 		block := NextIPBlock()
 		pip := block + "1"
 		kind := rapid.SampledFrom([]string{"tls", "https", "quic"}).Draw(t, "listener")
 		verify := rapid.IntRange(0, 3).Draw(t, "verify") > 0
-		client := rapid.SampledFrom([]string{"none", "other-ca", "expired", "self-signed", "valid"}).Draw(t, "client")
+		client := rapid.SampledFrom([]string{"none", "other-ca", "system-ca", "expired", "self-signed", "valid"}).Draw(t, "client")
 		up, err := StartUpstream("udp", "up", block+"2", 0, nil, func(q *UpQuery) UpAction {
 			return UpAction{Reply: EncodeMsg(KeyedAnswer(q.Msg, "c17", uint32(q.Seq), 60, 0))}
 		})
@@ -132,7 +137,7 @@ func TestVfC17ClientCert(t *testing.T) {
 		srv := ServerCfg{Tag: kind, Protocol: kind, Listen: fmt.Sprintf("%s:%d", pip, ListenerPorts[kind]),
 			Tls: &TlsCfg{Cert: "$DIR/cert.pem", Key: "$DIR/key.pem", CA: "$DIR/ca.pem", VerifyClientCert: verify}}
 		cfg := &Config{Servers: []ServerCfg{srv}, Upstreams: []UpstreamCfg{{Tag: "up", Addr: up.Addr()}}, Rules: []Rule{{Forward: "up"}}}
-		p, err := StartProxy(cfg.YAML(), map[string]string{"cert.pem": string(server.CertPEM), "key.pem": string(server.KeyPEM), "ca.pem": string(ca.CertPEM)}, ProxyOpts{})
+		p, err := StartProxy(cfg.YAML(), map[string]string{"cert.pem": string(server.CertPEM), "key.pem": string(server.KeyPEM), "ca.pem": string(ca.CertPEM), "sys.pem": string(sysCA.CertPEM)}, ProxyOpts{Env: []string{"SSL_CERT_FILE=$DIR/sys.pem", "SSL_CERT_DIR=$DIR/no-such-dir"}})
 		if err != nil {
 			t.Fatalf("%v", err)
 		}
@@ -144,6 +149,8 @@ func TestVfC17ClientCert(t *testing.T) {
 		switch client {
 		case "other-ca":
 			tc.Certificates = []tls.Certificate{otherCA.Issue(LeafOpts{DNSNames: []string{"client"}, Client: true}).TLS}
+		case "system-ca":
+			tc.Certificates = []tls.Certificate{sysCA.Issue(LeafOpts{DNSNames: []string{"client"}, Client: true}).TLS}
 		case "expired":
 			tc.Certificates = []tls.Certificate{ca.Issue(LeafOpts{DNSNames: []string{"client"}, NotBefore: time.Now().Add(-48 * time.Hour), NotAfter: time.Now().Add(-time.Hour)}).TLS}
 		case "self-signed":
